@@ -202,11 +202,35 @@ class STuple(SList):
 class SDict:
     """dict with concrete (hashable python) keys in insertion order and symbolic values"""
 
-    def __init__(self, items=None):
+    def __init__(self, items=None, rest=None, rest_maps=None, rest_dom=None):
         self.items = dict(items or {})
+        self.rest = rest            # z3 Array String -> JV for all keys not in items (None: no further keys)
+        self.rest_maps = list(rest_maps or [])   # element functions applied to every value of the remainder
+        self.rest_dom = rest_dom    # (JV term -> z3 Bool) assumed of every present value of the remainder
 
     def __repr__(self):
-        return f"SDict({self.items})"
+        return f"SDict({self.items}{', rest=' + str(self.rest) if self.rest is not None else ''})"
+
+
+class SSeq:
+    """a list of symbolic length: the elements of a z3 sequence `base` (Seq JV), each passed through the element
+    functions `maps` (python callables value -> value, re-running interpreted loop bodies).  `dom` (JV term -> z3 Bool)
+    is what is assumed of every element of base."""
+
+    def __init__(self, base, dom=None, maps=None):
+        self.base = base
+        self.dom = dom
+        self.maps = list(maps or [])
+
+    def __repr__(self):
+        return f"SSeq({self.base}, maps={len(self.maps)})"
+
+
+class SDictItems:
+    """d.items() of a dict with a symbolic remainder (only usable as the iterable of a for loop)"""
+
+    def __init__(self, d):
+        self.d = d
 
 
 class SSet:
@@ -276,6 +300,10 @@ class Interp:
         from . import libmodels
         self.lib = libmodels.MODELS if lib is None else lib
         self.unknown_sat = 0
+        self.elem_domains = {}      # id of a JV list term -> (JV term -> z3 Bool): assumed domain of its elements
+        self.in_clause = False      # equality of mapped sequences introduces fresh witnesses: only sound in clauses
+        self._generic_key = None
+        self._generic_store = None
 
     # -- solver ---------------------------------------------------------------------------------------------------------
     def _check(self, extra):
@@ -411,11 +439,96 @@ class Interp:
             for it in v.items:
                 seq = z3.Concat(seq, z3.Unit(self.to_jv(it)))
             return Z.con["list"](seq)
+        if isinstance(v, SDict):
+            arr = self.rest_term(v) if v.rest is not None else z3.K(z3.StringSort(), Z.con["absent"]())
+            for k, x in v.items.items():
+                if not isinstance(k, str):
+                    raise Unsupported("non-string dict key in a JSON value")
+                arr = z3.Store(arr, z3.StringVal(k), self.to_jv(x))
+            return Z.con["dict"](arr)
+        if isinstance(v, SSeq):
+            return Z.con["list"](self.seq_term(v))
+        if isinstance(v, _Tagged):
+            return v.t
         if isinstance(v, SObj):
             if v.tag is None:
                 v.tag = next(self.fresh_id) + 1000
             return Z.con["obj"](z3.IntVal(v.tag))
+        import enum as _enum
+        if isinstance(v, _enum.Enum) or _is_singleton(v):
+            return Z.con["obj"](z3.IntVal(-(abs(hash(repr(v))) % (10 ** 9)) - 1))
         raise Unsupported(f"cannot lift {type(v).__name__} to JV")
+
+    def seq_term(self, q):
+        """z3 Seq JV term of an SSeq.  With element maps the result is a fresh sequence R constrained by the generic
+        element argument:  (dom(x*) ==> maps(x*) == x*)  ==>  R == base   (x* fresh: a counterexample element makes R
+        unconstrained, so the enclosing obligation fails exactly when some element is not mapped to itself)."""
+        if not q.maps:
+            return q.base
+        Z = self.Z
+        cached = getattr(q, "_term", None)
+        if cached is not None:
+            return cached
+        x = self.fresh("elem", Z.JV)
+        R = self.fresh("mapped", z3.SeqSort(Z.JV))
+        val = SV(x)
+        hyp = q.dom(x) if q.dom is not None else z3.BoolVal(True)
+        saved_pc = len(self.path.pc)
+        try:
+            self.path.pc.append(hyp)
+            for f in q.maps:
+                val = f(val)
+            ident = self.to_jv(val) == x
+            plain = self.is_plain_json(self.to_jv(val))
+        except PyRaise as e:
+            # some element makes the element function raise: the whole loop raises
+            raise
+        finally:
+            extra = self.path.pc[saved_pc + 1:]
+            del self.path.pc[saved_pc:]
+        # branch decisions taken while mapping the generic element are conditions on x*: keep them as hypotheses
+        cond = z3.And(hyp, *extra) if extra else hyp
+        self.fact(z3.Implies(z3.Implies(cond, ident), R == q.base))
+        self.fact(z3.Length(R) == z3.Length(q.base))
+        q._term = R
+        q._elem_plain = z3.Implies(cond, plain)
+        return R
+
+    def rest_term(self, d):
+        """z3 array of the remainder of a dict; with value maps: generic-entry argument as in seq_term"""
+        if not d.rest_maps:
+            return d.rest
+        Z = self.Z
+        cached = getattr(d, "_rest_term", None)
+        if cached is not None and cached[0] is d.rest and cached[1] == len(d.rest_maps):
+            return cached[2]
+        k = self.fresh("key", z3.StringSort())
+        x = z3.Select(d.rest, k)
+        R = self.fresh("mappedrest", z3.ArraySort(z3.StringSort(), Z.JV))
+        hyp = z3.Not(Z.rec["absent"](x))
+        if d.rest_dom is not None:
+            hyp = z3.And(hyp, d.rest_dom(x))
+        saved_pc = len(self.path.pc)
+        val = SV(x)
+        try:
+            self.path.pc.append(hyp)
+            for f in d.rest_maps:
+                val = f(val)
+            ident = self.to_jv(val) == x
+            plain = self.is_plain_json(self.to_jv(val))
+        finally:
+            extra = self.path.pc[saved_pc + 1:]
+            del self.path.pc[saved_pc:]
+        cond = z3.And(hyp, *extra) if extra else hyp
+        self.fact(z3.Implies(z3.Implies(cond, ident), R == d.rest))
+        d._rest_term = (d.rest, len(d.rest_maps), R)
+        d._rest_plain = z3.Implies(cond, plain)
+        return R
+
+    def is_plain_json(self, t):
+        """the JV term is plain JSON data at the top level (no UNSET/absent/opaque object/Value)"""
+        r = self.Z.rec
+        return z3.Or(r["none"](t), r["bool"](t), r["int"](t), r["flt"](t), r["str"](t), r["list"](t), r["dict"](t))
 
     def float_const(self, f):
         Z = self.Z
@@ -462,8 +575,19 @@ class Interp:
                 if name == "val":
                     from openapi_python_client.parser.properties.protocol import Value
                     return SObj(Value, {"python_code": SStr(Z.acc["code"](t)), "raw_value": SV(Z.acc["raw"](t))})
+                if name == "dict":
+                    return self._cached_view(t, lambda: SDict({}, rest=Z.acc["m"](t)))
+                if name == "list":
+                    return self._cached_view(t, lambda: SSeq(Z.acc["items"](t), dom=self.elem_domains.get(t.get_id())))
                 return _Tagged(name, t)
         raise Infeasible()
+
+    def _cached_view(self, t, make):
+        cache = self.path.__dict__.setdefault("views", {})
+        k = t.get_id()
+        if k not in cache:
+            cache[k] = make()
+        return cache[k]
 
     def truth(self, v):
         """python truthiness as python bool or z3 Bool"""
@@ -483,7 +607,11 @@ class Interp:
         if isinstance(v, (SList, STuple)):
             return len(v.items) > 0
         if isinstance(v, SDict):
+            if v.rest is not None and not v.items:
+                raise Unsupported("truthiness of a dict with symbolic remainder")
             return len(v.items) > 0
+        if isinstance(v, SSeq):
+            return z3.Length(v.base) > 0
         if isinstance(v, SSet):
             return len(v.items) > 0
         if isinstance(v, SObj):
@@ -506,6 +634,10 @@ class Interp:
             return True
         if isinstance(v, type) or inspect.isfunction(v) or inspect.ismodule(v):
             return True
+        if isinstance(v, _Poison):
+            raise Unsupported(f"use of {v.name} after a generically executed loop")
+        if not isinstance(v, (SSeq, SDictItems)):
+            return bool(v)       # a real python object (enum member, UNSET sentinel, ...)
         raise Unsupported(f"truthiness of {type(v).__name__}")
 
     def is_true(self, v):
@@ -525,6 +657,13 @@ class Interp:
                 return z3.Not(isnan(ta))
             cross = z3.And(num(ta), num(tb), self._numval_ok(ta), self._numval_ok(tb), self._numval(ta) == self._numval(tb))
             return z3.Or(same, cross)
+        if isinstance(a, (SSeq,)) or isinstance(b, (SSeq,)) or (isinstance(a, SDict) and a.rest is not None) or \
+                (isinstance(b, SDict) and b.rest is not None) or \
+                (isinstance(a, SV) and isinstance(b, (SDict, SList)) and not isinstance(b, STuple)) or \
+                (isinstance(b, SV) and isinstance(a, (SDict, SList)) and not isinstance(a, STuple)):
+            if not self.in_clause and (isinstance(a, SSeq) and a.maps or isinstance(b, SSeq) and b.maps):
+                raise Unsupported("equality of element-wise mapped sequences outside a post-condition")
+            return self.to_jv(a) == self.to_jv(b)
         if isinstance(a, SV):
             a = self.view(a)
         if isinstance(b, SV):
@@ -676,12 +815,15 @@ class Interp:
                 if a is not None and a.items:
                     return self.py_str(a.items[0])
                 return ""
+            if "__text__" in v.fields and v.cls.__name__ == "UUID":
+                from . import libmodels
+                return libmodels.uuid_str(self, v)
             if issubclass(v.cls, str):
                 inner = v.fields.get("__str__")
                 if inner is not None:
                     return inner
             return SStr(Z.str_of(self.to_jv(v)))
-        if isinstance(v, (SList, SDict, SSet)):
+        if isinstance(v, (SList, SDict, SSet, SSeq)):
             return SStr(self.fresh("str_of_container", z3.StringSort()))
         if isinstance(v, SOpaque):
             return SStr(self.fresh("str_of_" + v.name, z3.StringSort()))
@@ -707,6 +849,8 @@ class Interp:
             return self.py_str(v)
         if isinstance(v, _Tagged):
             return SStr(Z.str_of(v.t))
+        if isinstance(v, (SList, SDict, SSet, SSeq)):
+            return SStr(self.fresh("repr_of_container", z3.StringSort()))
         raise Unsupported(f"repr() of {type(v).__name__}")
 
     def concat(self, parts):
@@ -942,6 +1086,12 @@ class Interp:
 
     def exec_for(self, st, fr):
         it = self.eval(st.iter, fr)
+        if isinstance(it, SV):
+            it = self.view(it)
+        if isinstance(it, SSeq):
+            return self.exec_for_generic(st, fr, it)
+        if isinstance(it, SDictItems):
+            return self.exec_for_dictitems(st, fr, it.d)
         items = self.iterate(it)
         broke = False
         for x in items:
@@ -955,6 +1105,157 @@ class Interp:
                 continue
         if not broke:
             self.exec_block(st.orelse, fr)
+
+    def exec_for_generic(self, st, fr, seq):
+        """`for x in <list of symbolic length>`: the body is executed once on a generic element.  Supported shape (the
+        only one the templates emit): the body appends exactly one value to one list that was empty before the loop and
+        has no other effect that survives the loop; then that list becomes the element-wise image of the sequence.
+        The body's exceptions propagate (some element raises => the loop raises, on a path where the list is non-empty)."""
+        if st.orelse:
+            raise Unsupported("for/else over a symbolic sequence")
+        if not self.branch(z3.Length(seq.base) > 0):
+            return
+        lists_before = {n: (v, len(v.items)) for n, v in fr.locals.items() if type(v) is SList}
+        assigned = _assigned_names(st.body) | _assigned_names([ast.Assign(targets=[st.target], value=ast.Constant(None))])
+
+        def run_body(elem, frame):
+            self.assign(st.target, elem, frame)
+            try:
+                self.exec_block(st.body, frame)
+            except (_Break, _Continue, _Return):
+                raise Unsupported("break/continue/return in a loop over a symbolic sequence")
+
+        # generic element
+        Z = self.Z
+        x = self.fresh("elem", Z.JV)
+        if seq.dom is not None:
+            self.assume(seq.dom(x))
+        self.assume(z3.Contains(seq.base, z3.Unit(x)))
+        val = SV(x)
+        for f in seq.maps:
+            val = f(val)
+        run_body(val, fr)
+        grown = [(n, v) for n, (v, k) in lists_before.items() if len(v.items) != k]
+        for n, (v, k) in lists_before.items():
+            if fr.locals.get(n) is not v:
+                raise Unsupported(f"list {n} rebound in a loop over a symbolic sequence")
+        if len(grown) > 1 or any(lists_before[n][1] != 0 or len(v.items) != 1 for n, v in grown):
+            raise Unsupported("loop over a symbolic sequence must append exactly once to one initially empty list")
+        snapshot = {k: v for k, v in fr.locals.items() if k not in assigned}
+        for n in assigned:
+            if n in fr.locals and not any(n == g for g, _ in grown):
+                fr.locals[n] = _Poison(n)
+        if grown:
+            name, lst = grown[0]
+
+            def elem_fn(e, name=name):
+                f2 = Frame(fr.module, dict(snapshot), fr.qualname, fr.cls)
+                acc = SList()
+                f2.locals[name] = acc
+                run_body(e, f2)
+                if len(acc.items) != 1:
+                    raise Unsupported("element function appended a different number of items")
+                return acc.items[0]
+            fr.locals[name] = SSeq(seq.base, seq.dom, seq.maps + [elem_fn])
+            # aliases of the accumulator (e.g. stored into a dict before the loop) are not tracked
+            lst.items[:] = [_Poison(name)]
+
+    def exec_for_dictitems(self, st, fr, d):
+        """`for k, v in d.items()` where d has a symbolic remainder: concrete entries are unrolled, the remainder is
+        handled by one generic entry.  Supported shape: the body stores exactly once `target[k] = f(v)` into one dict
+        that had no remainder before the loop; then target's remainder becomes the value-wise image of d's."""
+        if st.orelse:
+            raise Unsupported("for/else over dict items")
+        for k, v in list(d.items.items()):
+            self.assign(st.target, STuple([k, v]), fr)
+            try:
+                self.exec_block(st.body, fr)
+            except (_Break, _Continue, _Return):
+                raise Unsupported("break/continue/return in a loop over a dict with symbolic remainder")
+        Z = self.Z
+        assigned = _assigned_names(st.body) | _assigned_names([ast.Assign(targets=[st.target], value=ast.Constant(None))])
+        kk = self.fresh("key", z3.StringSort())
+        x = z3.Select(d.rest, kk)
+        if not self.branch(z3.Not(Z.rec["absent"](x))):
+            # no further entries on this path -- but only this generic key is known absent; treat the remainder as
+            # empty is unsound, so the loop is executed for the generic entry only on the other branch and here we
+            # record nothing: the remainder relation is established below in both cases
+            pass_through = True
+        else:
+            pass_through = False
+        # run the body on the generic entry in a scratch frame to find the target dict and the value function
+        snapshot = {k: v for k, v in fr.locals.items() if k not in assigned}
+
+        def run(entry_val, frame):
+            self._generic_store = None
+            self._generic_key = kk
+            self.assign(st.target, STuple([SStr(kk), entry_val]), frame)
+            try:
+                self.exec_block(st.body, frame)
+            except (_Break, _Continue, _Return):
+                raise Unsupported("break/continue/return in a loop over a dict with symbolic remainder")
+            finally:
+                self._generic_key = None
+            gs = self._generic_store
+            self._generic_store = None
+            return gs
+        if pass_through:
+            # the loop body is still analysed (for the target and the value function) under the hypothesis of a present
+            # generic entry; exceptions on that hypothetical entry do not belong to this path
+            return self._establish_rest_map(st, fr, d, run, snapshot, assigned, hypothetical=True, kk=kk, x=x)
+        if d.rest_dom is not None:
+            self.assume(d.rest_dom(x))
+        return self._establish_rest_map(st, fr, d, run, snapshot, assigned, hypothetical=False, kk=kk, x=x)
+
+    def _establish_rest_map(self, st, fr, d, run, snapshot, assigned, hypothetical, kk, x):
+        Z = self.Z
+        val = SV(x)
+        saved_pc = len(self.path.pc)
+        saved_dec = None
+        if hypothetical:
+            self.path.pc.append(z3.Not(Z.rec["absent"](x)))
+            if d.rest_dom is not None:
+                self.path.pc.append(d.rest_dom(x))
+        try:
+            for f in d.rest_maps:
+                val = f(val)
+            f2 = Frame(fr.module, dict(snapshot), fr.qualname, fr.cls)
+            # dicts reachable by name in the frame are shared (the store must hit the real target)
+            gs = run(val, f2)
+        except PyRaise:
+            if hypothetical:
+                gs = "raised"
+            else:
+                raise
+        finally:
+            if hypothetical:
+                del self.path.pc[saved_pc:]
+        if gs == "raised":
+            # cannot determine the target from a raising hypothetical entry; fall back to an empty mapped remainder
+            raise Unsupported("loop body raises on the hypothetical generic entry of an empty remainder")
+        if gs is None:
+            raise Unsupported("loop over dict items must store target[key] = value exactly once")
+        target, value = gs
+        if target.rest is not None:
+            raise Unsupported("target dict of a loop over dict items already has a symbolic remainder")
+
+        def value_fn(e):
+            f3 = Frame(fr.module, dict(snapshot), fr.qualname, fr.cls)
+            scratch = SDict()
+            # redirect the store: find the name bound to target in the snapshot
+            for n, v in list(f3.locals.items()):
+                if v is target:
+                    f3.locals[n] = scratch
+            g = run(e, f3)
+            if g is None or g[0] is not scratch:
+                raise Unsupported("value function of a dict loop did not store into the target")
+            return g[1]
+        target.rest = d.rest
+        target.rest_maps = list(d.rest_maps) + [value_fn]
+        target.rest_dom = d.rest_dom
+        for n in assigned:
+            if n in fr.locals:
+                fr.locals[n] = _Poison(n)
 
     LOOP_BOUND = 64
 
@@ -1004,6 +1305,12 @@ class Interp:
         raise Unsupported(f"attribute assignment on {type(obj).__name__}")
 
     def set_item(self, obj, key, v):
+        if isinstance(obj, SDict) and isinstance(key, SStr) and getattr(self, "_generic_key", None) is not None \
+                and z3.eq(key.t, self._generic_key):
+            if self._generic_store is not None:
+                raise Unsupported("more than one store under the generic key")
+            self._generic_store = (obj, v)
+            return
         if isinstance(obj, SDict):
             obj.items[self.hashable(key)] = v
             return
@@ -1051,7 +1358,10 @@ class Interp:
     def e_Name(self, node, fr):
         n = node.id
         if n in fr.locals:
-            return fr.locals[n]
+            v = fr.locals[n]
+            if isinstance(v, _Poison):
+                raise Unsupported(f"use of {n} after a generically executed loop")
+            return v
         g = fr.module.__dict__
         if n in g:
             return g[n]
@@ -1324,7 +1634,10 @@ class Interp:
             if hasattr(obj, "getattr"):
                 return obj.getattr(self, name)
             raise Unsupported(f"attribute {name} of opaque {obj.name}")
-        if isinstance(obj, (SStr, str, SList, SDict, SSet, STuple, SInt, SFloat, SBool, _Tagged)):
+        import enum as _enum
+        if isinstance(obj, _enum.Enum):
+            return getattr(obj, name)
+        if isinstance(obj, (SStr, str, SList, SDict, SSet, STuple, SInt, SFloat, SBool, _Tagged, SSeq)):
             return SFunc("method", name, self_val=obj, name=name)
         if obj is None:
             self.raise_(AttributeError, f"'NoneType' object has no attribute '{name}'")
@@ -1533,7 +1846,7 @@ class Interp:
         summ = self.contracts.get(qn)
         if summ is not None:
             return summ(self, args, kwargs)
-        if not mod.startswith("openapi_python_client") and not mod.startswith("__pyvc_fragment__"):
+        if not mod.startswith("openapi_python_client") and not mod.startswith("pyvcfrag_"):
             raise Unsupported(f"no model for library function {qn}")
         msrc, node = source.func(qn)
         if node is None:
@@ -1577,6 +1890,8 @@ class Interp:
                     if not has_default:
                         self.raise_(TypeError, f"missing argument {n}")
                     obj.fields[n] = default() if callable(default) and getattr(default, "__pyvc_factory__", False) else default
+            for n, default in _noninit_defaults(cls):
+                obj.fields[n] = default() if callable(default) and getattr(default, "__pyvc_factory__", False) else default
             return obj
         raise Unsupported(f"cannot construct {cls.__name__}")
 
@@ -1594,6 +1909,27 @@ class _Tagged:
 
     def __repr__(self):
         return f"<{self.tag} {self.t}>"
+
+
+class _Poison:
+    """value of a variable assigned inside a generically executed loop body: must not be used after the loop"""
+
+    def __init__(self, name):
+        self.name = name
+
+    def __repr__(self):
+        return f"<poison {self.name}>"
+
+
+def _assigned_names(stmts):
+    out = set()
+    for st in stmts:
+        for n in ast.walk(st):
+            if isinstance(n, ast.Name) and isinstance(n.ctx, ast.Store):
+                out.add(n.id)
+            elif isinstance(n, ast.Name) and isinstance(getattr(n, "ctx", None), ast.Del):
+                out.add(n.id)
+    return out
 
 
 class _IdKey:
@@ -1757,6 +2093,17 @@ def _init_fields(cls):
                 out.append((a.name, True, a.default))
         return out
     return None
+
+
+def _noninit_defaults(cls):
+    out = []
+    if hasattr(cls, "__attrs_attrs__"):
+        import attr
+        for a in cls.__attrs_attrs__:
+            if a.init or a.default is attr.NOTHING:
+                continue
+            out.append((a.name, _factory(a.default.factory) if isinstance(a.default, attr.Factory) else a.default))
+    return out
 
 
 def _factory(fac):
